@@ -34,6 +34,17 @@ def _order(callable_: Any, keymap: Dict[str, str]) -> List[str]:
 
 def evaluate(case: Dict[str, Any]) -> Dict[str, Any]:
     """Everything C07 observes about one case, as plain data."""
+    import tawazi
+
+    old_dbg = tawazi.cfg.RUN_DEBUG_NODES
+    tawazi.cfg.RUN_DEBUG_NODES = bool(case.get("debug"))
+    try:
+        return _evaluate(case)
+    finally:
+        tawazi.cfg.RUN_DEBUG_NODES = old_dbg
+
+
+def _evaluate(case: Dict[str, Any]) -> Dict[str, Any]:
     P = case["prog"]
     out: Dict[str, Any] = {}
     b = prog.build(P, mc=1, is_async=bool(case.get("async")))
